@@ -151,7 +151,7 @@ Announce(s, c) ==
       [] c.op = "set_name_none" ->
            IF ~ok THEN <<>>
            ELSE IF DataOf(s, c.kind, c.x).name # NoVal THEN << ADel(c.kind, c.x, "name") >>
-           ELSE << ASet(c.kind, c.x, "name", "<None>") >>
+           ELSE <<>>
       [] OTHER -> <<>>
 
 ---------------------------------------------------------------------------
